@@ -253,6 +253,7 @@ def show(node):
 # ---- (3) histories ------------------------------------------------------------------------
 
 _PARSED = {}
+_SHELL_LEDGER = None
 SHELL_QUERY_TEXT = "SELECT date, account, number FROM year = 2019 WHERE number > 100"
 
 
@@ -328,8 +329,11 @@ class World:
         from beancount import loader
         from beanquery import shell
         out = io.StringIO()
-        entries, errors, options = loader.load_string(sample_ledger.TEXT.replace('__DOCFILE__', sample_ledger.__file__)
-                                                     + f'\n2019-02-15 query "jan" "{SHELL_QUERY_TEXT}"\n')
+        global _SHELL_LEDGER
+        if _SHELL_LEDGER is None:       # loading costs ~25 ms: once per process (the entries are immutable named tuples)
+            _SHELL_LEDGER = loader.load_string(sample_ledger.TEXT.replace('__DOCFILE__', sample_ledger.__file__)
+                                               + f'\n2019-02-15 query "jan" "{SHELL_QUERY_TEXT}"\n')
+        entries, errors, options = _SHELL_LEDGER
         with contextlib.redirect_stdout(out), contextlib.redirect_stderr(out):
             sh = shell.BQLShell(None, out)
             sh.context.attach('beancount:', entries=entries, errors=errors, options=options)
